@@ -222,6 +222,12 @@ def run_layouts(layouts, tag):
         mism.append((None, ["model runner exited %d: %s" % (rc2, ml_err[-500:])]))
     for i, lay in enumerate(layouts):
         gl, ml = g.get(str(i), []), m.get(str(i), [])
+        if lay.get("kind") == "default_as_frame":
+            # the DEFAULT expression object itself registered as a frame (API misuse, the factory never does it): the code
+            # cannot tell such a frame from the gaps between frames and accepts later frames on top of it; only the
+            # accept / reject answers are compared, the values are outside the modelled domain
+            gl = [l for l in gl if l.startswith("set ")]
+            ml = [l for l in ml if l.startswith("set ")]
         mm = compare(gl, ml)
         if mm:
             mism.append((i, mm))
